@@ -39,7 +39,7 @@ func NewSlogHandler(logger Logger, config *HandlerOptions) logslog.Handler {
 		logger.SetLevel(config.Level)
 	}
 
-	return &handler4LogSlog{logger.SetColorMode(!config.NoColor).SetJSONMode(config.JSON)}
+	return &handler4LogSlog{Logger: logger.SetColorMode(!config.NoColor).SetJSONMode(config.JSON)}
 }
 
 // HandlerOptions is used for our log/slog Handler.
@@ -56,6 +56,29 @@ type HandlerOptions struct {
 
 type handler4LogSlog struct {
 	Logger
+	goas []groupOrAttrs // what WithGroup and WithAttrs have accumulated, in call order
+}
+
+// groupOrAttrs is one derivation step of a handler: a group opened by
+// WithGroup (group != "") or the attributes added by WithAttrs.
+type groupOrAttrs struct {
+	group string
+	attrs Attrs
+}
+
+// nest puts the attributes of a record under the groups and after the
+// attributes this handler was derived with.
+func (s *handler4LogSlog) nest(fields Attrs) Attrs {
+	for i := len(s.goas) - 1; i >= 0; i-- {
+		if g := s.goas[i]; g.group != "" {
+			if len(fields) > 0 { // log/slog: a group without attributes is omitted
+				fields = Attrs{&gkvp{g.group, fields}}
+			}
+		} else {
+			fields = append(append(make(Attrs, 0, len(g.attrs)+len(fields)), g.attrs...), fields...)
+		}
+	}
+	return fields
 }
 
 func convertLevelToLogSlog(lvl Level) logslog.Level {
@@ -93,7 +116,7 @@ func (s *handler4LogSlog) Enabled(ctx context.Context, lvl logslog.Level) bool {
 func (s *handler4LogSlog) Handle(ctx context.Context, rec logslog.Record) error {
 	lvl := convertLogSlogLevel(rec.Level)
 	if wi, ok := s.Logger.(LogSlogAware); ok {
-		fields := convertLogSlogRecordAttrs(rec)
+		fields := s.nest(convertLogSlogRecordAttrs(rec))
 
 		// rec.PC would be abandoned because we want skip the extra frames
 		ei := 0
@@ -106,7 +129,7 @@ func (s *handler4LogSlog) Handle(ctx context.Context, rec logslog.Record) error 
 
 		wi.WriteThru(ctx, lvl, rec.Time, rec.PC, rec.Message, fields)
 	} else {
-		fields := convertLogSlogRecordAttrs(rec)
+		fields := s.nest(convertLogSlogRecordAttrs(rec))
 		s.LogAttrs(ctx, lvl, rec.Message, fields)
 	}
 	return nil
@@ -119,21 +142,28 @@ func (s *handler4LogSlog) WithAttrs(attrs []logslog.Attr) logslog.Handler {
 	for i, attr := range attrs {
 		fields[i] = convertAttrToField(attr)
 	}
-	return s.withFields(fields...)
+	if len(fields) == 0 {
+		return s
+	}
+	return s.withGoa(groupOrAttrs{attrs: fields})
 }
 
 // WithGroup returns a new Handler with the given group appended to
 // the receiver's existing groups.
 func (s *handler4LogSlog) WithGroup(name string) logslog.Handler {
-	return s.withFields(Group(name))
+	if name == "" {
+		return s
+	}
+	return s.withGoa(groupOrAttrs{group: name})
 }
 
-// withFields returns a cloned Handler with the given fields.
-func (s *handler4LogSlog) withFields(fields ...Attr) *handler4LogSlog {
-	cloned := &handler4LogSlog{
-		New().SetAttrs(fields...),
-	}
-	return cloned
+// withGoa returns a derived Handler on the same logger - same destination,
+// format and level - that remembers one more group or attribute list.
+func (s *handler4LogSlog) withGoa(goa groupOrAttrs) *handler4LogSlog {
+	goas := make([]groupOrAttrs, len(s.goas)+1)
+	copy(goas, s.goas)
+	goas[len(goas)-1] = goa
+	return &handler4LogSlog{Logger: s.Logger, goas: goas}
 }
 
 var _ logslog.Handler = (*handler4LogSlog)(nil)
